@@ -312,6 +312,27 @@ example : ∃ ys, removePbcFromCoord K [⟨1, 1, 1⟩, ⟨15, 1, 1⟩, ⟨-2, 9,
   obtain ⟨ys, h, -, hm, -⟩ := C15_remove_pbc_consecutive_min_image [⟨1, 1, 1⟩, ⟨15, 1, 1⟩, ⟨-2, 9, 1⟩] orthoEx hd.1 (.inl hd.2)
   exact ⟨ys, h, hm⟩
 
+/-- One molecule of `remove_pbc`, given by its array positions `mol` — distinct and in range, NOT necessarily
+contiguous (solvent listed as all O, then all H1, then all H2): the molecule's OWN coordinate sequence is reassembled
+by `remove_pbc_from_coord` and translated as a whole (`t`, centroid into the box), so by
+`C15_remove_pbc_consecutive_min_image` its array-order neighbours end at their minimum image whatever lies between
+them in the array; every coordinate outside the molecule is left untouched. -/
+theorem C15_remove_pbc_molecule_step (b : Box) (hdet : b.det ≠ 0) (cur : List Vec) (mol : List Nat)
+    (hnd : mol.Nodup) (hlt : ∀ i ∈ mol, i < cur.length) :
+    ∃ cur' san t, removePbcStep K b cur mol = .ok cur' ∧
+      removePbcFromCoord K (mol.filterMap (fun i => cur[i]?)) b = .ok san ∧
+      cur'.length = cur.length ∧
+      (∀ i, i ∉ mol → cur'[i]? = cur[i]?) ∧
+      (∀ (j i : Nat) (w : Vec), mol[j]? = some i → (san.map (fun p => p.add t))[j]? = some w → cur'[i]? = some w) :=
+  removePbcStep_spec C15_gen_consts b hdet cur mol hnd hlt
+
+example : ∃ cur', removePbcStep K orthoEx [⟨1, 1, 1⟩, ⟨15, 1, 1⟩, ⟨-2, 9, 1⟩, ⟨3, 3, 3⟩] [0, 2] = .ok cur' ∧
+    cur'[1]? = some ⟨15, 1, 1⟩ ∧ cur'[3]? = some ⟨3, 3, 3⟩ := by
+  have hd : orthoEx.det ≠ 0 := by simp only [M3.det, triple, V3.dot, V3.cross, orthoEx]; norm_num
+  obtain ⟨cur', _, _, h, -, -, ho, -⟩ := C15_remove_pbc_molecule_step orthoEx hd
+    [⟨1, 1, 1⟩, ⟨15, 1, 1⟩, ⟨-2, 9, 1⟩, ⟨3, 3, 3⟩] [0, 2] (by decide) (by decide)
+  exact ⟨cur', h, by rw [ho 1 (by decide)]; rfl, by rw [ho 3 (by decide)]; rfl⟩
+
 /-! ## Unit cell ↔ box vectors (partial: algebraic core only) -/
 
 /-- `unitcell_from_vectors ∘ vectors_from_unitcell = id` up to the transcendental functions: over any
